@@ -8,6 +8,7 @@
 EXTENDS HclDec, SequencesExt
 
 CONSTANTS MaxSpecD, MaxItems,
+          ItemMode,      \* "all": the whole item pool; "few": a small pool for longer bodies
           NParts, Part   \* parallel enumeration: this run starts from the leaf specs of class Part (0-based) of NParts
 
 VARIABLES spec, sd, body, phase, pred, ity, jsonok
@@ -56,6 +57,13 @@ ItemKinds ==
 
 \* the evaluation context of the decoded bodies: a known number, an unknown number, the dynamic
 \* unknown and a typed null (kept in sync with harness/dec.Ctx)
+\* the small pool: blocks of one type whose dynamically typed attribute is unset / a number / a
+\* string / unknown, a labelled type with two keys, an unexpected block and an attribute
+FewItems == {IBlock("p", <<>>, <<>>), IBlock("p", <<>>, <<IAttr("a", NNum(2))>>), IBlock("p", <<>>, <<IAttr("a", StrLit("x"))>>),
+             IBlock("p", <<>>, <<IAttr("a", NVar("d"))>>),
+             IBlock("q", <<"x">>, <<IAttr("a", NNum(2))>>), IBlock("q", <<"y">>, <<>>), IBlock("q", <<"x">>, <<IAttr("a", StrLit("x"))>>),
+             IAttr("a", NNum(2))}
+
 EmptyEnv == [x \in {"n1", "u", "d", "nn"} |->
                CASE x = "n1" -> Num(2) [] x = "u" -> Unk(TNum) [] x = "d" -> DynVal [] OTHER -> Null(TStr)]
 NoPred == R(Oom, FALSE)
@@ -75,7 +83,7 @@ Start == /\ phase = "spec" /\ WellFormedSpec(spec, FALSE)
          /\ UNCHANGED <<spec, sd, body, jsonok>>
 
 AddItem == /\ phase = "body" /\ Len(body) < MaxItems
-           /\ \E it \in ItemKinds :
+           /\ \E it \in (IF ItemMode = "few" THEN FewItems ELSE ItemKinds) :
                  /\ (it.k = "attr" => ~\E i \in 1..Len(body) : body[i].k = "attr" /\ body[i].name = it.name)
                  /\ body' = Append(body, it)
                  /\ pred' = Decode(spec, body', EmptyEnv)
